@@ -89,6 +89,7 @@ var (
 	opDataAwrap = MOp{K: "data", PID: 0x100, Len: 50, AF: "priv254"}
 	opDataAbig  = MOp{K: "data", PID: 0x100, Len: 50, AF: "priv200"}
 	opPktStAF   = MOp{K: "pkt", Pkt: "staleaf"}
+	opPktStFit  = MOp{K: "pkt", Pkt: "stalefit"}
 	opPktFitPr  = MOp{K: "pkt", Pkt: "fitpriv"}
 	opPktBigPr  = MOp{K: "pkt", Pkt: "bigpriv"}
 	opPktFitPE  = MOp{K: "pkt", Pkt: "fitpcrext"}
@@ -106,7 +107,7 @@ var muxFullAlpha = []MOp{
 
 // caller-built packets at the size limit: exact fit and one byte too many for each way of filling the
 // adaptation field; a struct with a cleared flag and the part still attached
-var muxPktEdgeAlpha = []MOp{opDataAwrap, opDataAbig, opPktStAF, opPktFitPr, opPktBigPr, opPktFitPE, opPktBigPE, opPktBig, opPktStale, opPktShort, opDataA1, opTables}
+var muxPktEdgeAlpha = []MOp{opDataAwrap, opDataAbig, opPktStAF, opPktStFit, opPktFitPr, opPktBigPr, opPktFitPE, opPktBigPE, opPktBig, opPktStale, opPktShort, opDataA1, opTables}
 
 // A smaller alphabet for deeper searches.
 var muxCoreAlpha = []MOp{
